@@ -1,3 +1,4 @@
+import Mqtt5V.Proofs.TraceQuota
 import Mqtt5V.Proofs.Sender
 /-! # C09 — async_disconnect: DISCONNECT first and alone (sender core)
 
@@ -58,5 +59,23 @@ theorem batch_terminal_exclusive (s : S) (b : List SReq) (h : (doWrite s).1.infl
       rw [hs] at this
       simp at this
       exact hnt r this
+
+/-! ## the composed client model (`Model/Trace.lean`; tie: every H-client transcript of the real client must be accepted) -/
+section ComposedModel
+open Mqtt5V.Model
+
+/-- **C05 / C09 end to end**: `cancelAll` stands for cancel(), a terminal cancellation signal of a publish / subscribe / unsubscribe, or a
+finished async_disconnect; `restart` for a later async_run(). In every accepted history no publish, subscribe or unsubscribe completes
+successfully between a `cancelAll` and the next `restart` (`Trace.cancelledOf` is computed from the events alone): whatever was outstanding
+can only end with an error -/
+theorem composed_no_success_after_cancel (pre post : List Trace.Ev) (op : Nat) (rcs : List Nat) (props : Nat)
+    (hacc : Trace.accepts (pre ++ Trace.Ev.doneOk op rcs props :: post) = true) : Trace.cancelledOf pre = false :=
+  Mqtt5V.Proofs.Trace.no_success_after_cancel hacc
+
+example : Trace.accepts [.init 1 .pub1 1, .connUp none, .wr, .pk (.publish 1 1 7 false 3), .wrOk, .rx ⟨.puback, 7, [0], 0, true⟩, .cancelAll,
+    .doneOk 1 [0] 0] = false := by decide
+example : Trace.accepts [.init 1 .pub1 1, .connUp none, .wr, .pk (.publish 1 1 7 false 3), .wrOk, .cancelAll, .doneOther 1, .quiescent, .restart] = true := by decide
+
+end ComposedModel
 
 end Mqtt5V.Props.C09
